@@ -75,9 +75,12 @@ def r_arc(ctx, fqs, floor=0, derived=True):
             ok = K is not None and is_pow4k(rows, K)
             if not ok and is_call(rows, 'builtins.len') and K is not None and is_k_derivation(K):
                 ok = True      # K is derived from the row count of the source two lines later
-            run.check(ok, 'R-ARC', f, 'allocation#%d' % a, f.nodes[dd.node].lineno, 'allocated 4^K x 4',
-                      'accessor allocated with %s rows, not 4^K (K = %s)' % (show(rows), show(K) if K else None),
-                      inputs='every observed length')
+            # a witness: the row count is a power / product of 4 and K of another shape (4^(K+-c), 4*K, K^4)
+            wit_rows = K is not None and not ok and any(x[0] == 'bin' and x[1] in ('**', '*') for x in walk_term(rows)) and \
+                any(x == K for x in walk_term(rows))
+            _tri(run, ok, wit_rows, 'R-ARC', f, 'allocation#%d' % a, f.nodes[dd.node].lineno, 'allocated 4^K x 4',
+                 'accessor allocated with %s rows, not 4^K (K = %s)' % (show(rows), show(K) if K else None),
+                 inputs='every observed length')
             # entries are vertex numbers up to 4^K - 1: a fixed narrow integer type wraps them
             NARROW = ('int8', 'int16', 'uint8', 'uint16', 'byte', 'short', 'ubyte', 'ushort', 'int32', 'uint32', 'intc')
             for x in walk_term(t):
@@ -399,6 +402,9 @@ def r_ord_threshold(ctx):
             other = val[2] if val[3] == thr else val[3]
             tab = ordering_eval(val, lambda x: x == other, lambda x: x == thr)
             run.count('cases', 3)
+            if any(v is UNKNOWN for v in tab):
+                run.undecided('R-ORD', f, 'keep-iff-count>=threshold', nd.lineno, 'the threshold comparison %s is not evaluable' % show(val)[:60])
+                continue
             run.check(tab == (False, True, True), 'R-ORD', f, 'keep-iff-count>=threshold', nd.lineno,
                       'vertex kept iff successor count >= threshold',
                       "a vertex is kept iff %s: table for count<t, count=t, count>t is %s; required (False, True, True)"
@@ -413,7 +419,9 @@ def r_ord_threshold(ctx):
                     if call_name(ol) and call_name(ol).endswith('.obtain_latters') and tgt[0] == 'sub' \
                             and call_arg(ol, 0, 'current') == tgt[2]:
                         ok = True
-            run.check(ok, 'R-ORD', f, 'count-over-own-successors', nd.lineno,
+            wit_cnt = is_call(other, 'numpy.sum', 'builtins.sum') and other[2] and other[2][0][0] == 'sub' and \
+                call_name(other[2][0][2]) is not None and call_name(other[2][0][2]).endswith('.obtain_latters') and not ok
+            _tri(run, ok, wit_cnt, 'R-ORD', f, 'count-over-own-successors', nd.lineno,
                       'the count is taken over the mask entries of the successors of the vertex being decided',
                       'the kept-test counts %s, not the retained successors of the vertex stored at %s'
                       % (show(other)[:100], show(tgt)[:60]), inputs='every mask')
@@ -575,7 +583,12 @@ def r_fix(ctx):
         head, body = loop
         reach = f.reaching(head.id, carried)
         inloop = [d for d in reach if f.defs[d].node in body]
-        run.check(bool(inloop), 'R-FIX', f, 'feedback', head.lineno,
+        inplace = [d for d in f.defs if d.name == carried and d.node in body and d.kind == 'mutate']
+        if not inloop and inplace:
+            run.undecided('R-FIX', f, 'feedback', head.lineno, '`%s` is updated in place inside the loop: the feedback is not a rebinding '
+                          'this rule follows' % carried)
+        else:
+          run.check(bool(inloop), 'R-FIX', f, 'feedback', head.lineno,
                   '%s at the loop head has a loop-carried definition' % carried,
                   "the trimming loop never feeds its result back: `%s` at the loop head is only the value from before "
                   "the loop, so a second iteration recomputes the same thing (or the loop exits after one pass)" % carried,
@@ -686,7 +699,8 @@ def r_fix(ctx):
                 if isinstance(r.stmt.value, ast.Name) and r.stmt.value.id == carried:
                     ver = f.reaching(r.id, carried)
                     okr = any(f.defs[x].node in body for x in ver)
-            run.check(okr, 'R-FIX', f, 'returns-trimmed-map', head.lineno, 'the loop-carried map is returned',
+            named = any(isinstance(r.stmt.value, ast.Name) for r in f.stmts(ast.Return))
+            _tri(run, okr, named and not okr, 'R-FIX', f, 'returns-trimmed-map', head.lineno, 'the loop-carried map is returned',
                       'remove_useless does not return the map produced by its trimming loop',
                       inputs='maps for which trimming removes a vertex')
 
@@ -974,7 +988,14 @@ def r_bfs(ctx):
     run.floor('R-BFS', 'depth loops in obtain_leaf_vertices', len(loops), 1 if fused else 2)
     depth = ('v', 'depth', 'P')
     for i, (nd, it) in enumerate(loops):
-        run.check(it[2] == (depth,), 'R-BFS', f, 'depth-loop#%d:bound' % (i + 1), nd.lineno, 'iterates range(depth)',
+        counts = []
+        for dv in (0, 1, 3):
+            v_ = feval(it, lambda x, dv=dv: dv if x == depth else UNKNOWN)
+            counts.append(len(v_) if isinstance(v_, list) else UNKNOWN)
+        if any(c_ is UNKNOWN for c_ in counts):
+            run.undecided('R-BFS', f, 'depth-loop#%d:bound' % (i + 1), nd.lineno, 'the level loop iterates %s' % show(it)[:60])
+        else:
+          run.check(counts == [0, 1, 3], 'R-BFS', f, 'depth-loop#%d:bound' % (i + 1), nd.lineno, 'iterates range(depth)',
                   'the level loop iterates %s, not range(depth): this representation answers a different depth' % show(it),
                   inputs='every depth >= 1')
         body = {n.id for n in f.nodes if nd.id in n.loops}
@@ -1011,6 +1032,10 @@ def r_bfs(ctx):
         if not front:
             run.undecided('R-BFS', f, 'depth-loop#%d:frontier-rebound' % (i + 1), nd.lineno,
                           'the frontier of this level loop is not recognised')
+            continue
+        inplace_front = [d for d in f.defs if front and d.name == front and d.node in body and d.kind == 'mutate']
+        if front and not rebind and inplace_front:
+            run.undecided('R-BFS', f, 'depth-loop#%d:frontier-rebound' % (i + 1), nd.lineno, 'the frontier is updated in place')
             continue
         run.check(bool(front and rebind), 'R-BFS', f, 'depth-loop#%d:frontier-rebound' % (i + 1), nd.lineno,
                   'the frontier is replaced by the new level each round',
@@ -1079,8 +1104,11 @@ def r_bfs(ctx):
         if any(x[0] == 'v' and x[1] == 'branch' or (x[0] == 'v' and isinstance(x[2], tuple) and len(x[2]) > 1)
                for x in walk_term(t)):
             ok = True
-    run.check(ok, 'R-BFS', f, 'returns-frontier', rets[0].lineno if rets else f.node.lineno,
-              'the final frontier is returned', 'obtain_leaf_vertices does not return the final frontier', nontrivial=False)
+    if ok:
+        run.ok('R-BFS', f, 'returns-frontier', rets[0].lineno if rets else f.node.lineno, 'the final frontier is returned', nontrivial=False)
+    else:
+        run.undecided('R-BFS', f, 'returns-frontier', rets[0].lineno if rets else f.node.lineno, 'what obtain_leaf_vertices returns is not '
+                      'recognised as the final frontier')
 
 
 # ----------------------------------------------------------------------------------------------
